@@ -153,9 +153,12 @@ func (hr *historyRepository) recordMiniblock(blockHeaderHash []byte, blockHeader
 		return err
 	}
 
-	if hr.hasRecentlyInsertedMiniblockMetadata(miniblockHash, epoch) {
+	if hr.hasRecentlyInsertedMiniblockMetadata(miniblockHash, blockHeaderHash, epoch) {
 		return nil
 	}
+
+	// If the insert below fails half-way, the cache must not keep describing the previous (now partially overwritten) record
+	hr.deduplicationCacheForInsertMiniblockMetadata.Remove(miniblockHash)
 
 	err = hr.epochByHashIndex.saveEpochByHash(miniblockHash, epoch)
 	if err != nil {
@@ -178,7 +181,7 @@ func (hr *historyRepository) recordMiniblock(blockHeaderHash []byte, blockHeader
 		return err
 	}
 
-	hr.markMiniblockMetadataAsRecentlyInserted(miniblockHash, epoch)
+	hr.markMiniblockMetadataAsRecentlyInserted(miniblockHash, blockHeaderHash, epoch)
 
 	for _, txHash := range miniblock.TxHashes {
 		errPut := hr.miniblockHashByTxHashIndex.Put(txHash, miniblockHash)
@@ -195,22 +198,29 @@ func (hr *historyRepository) computeMiniblockHash(miniblock *block.MiniBlock) ([
 	return core.CalculateHash(hr.marshalizer, hr.hasher, miniblock)
 }
 
-func (hr *historyRepository) hasRecentlyInsertedMiniblockMetadata(miniblockHash []byte, epoch uint32) bool {
-	key := hr.buildKeyOfDeduplicationCacheForInsertMiniblockMetadata(miniblockHash, epoch)
-	return hr.deduplicationCacheForInsertMiniblockMetadata.Has(key)
+func (hr *historyRepository) hasRecentlyInsertedMiniblockMetadata(miniblockHash []byte, blockHeaderHash []byte, epoch uint32) bool {
+	value, ok := hr.deduplicationCacheForInsertMiniblockMetadata.Get(miniblockHash)
+	if !ok {
+		return false
+	}
+
+	lastInserted, ok := value.(string)
+	return ok && lastInserted == hr.buildValueOfDeduplicationCacheForInsertMiniblockMetadata(blockHeaderHash, epoch)
 }
 
-// When building the key for the deduplication cache, we must take into account the epoch as well, in order to handle this case:
+// The deduplication cache remembers, for each miniblock, the (epoch, block header) of its most recent insert. An insert is skipped
+// only if it repeats exactly that record. The epoch and the header must be taken into account in order to handle these cases:
 // - miniblock M added in a fork at the end of epoch E,
-// - miniblock M re-added, on the canonical chain this time, in the next epoch E + 1.
-// This way we do not mistakenly ignore to update the "epochByHashIndex".
-func (hr *historyRepository) buildKeyOfDeduplicationCacheForInsertMiniblockMetadata(miniblockHash []byte, epoch uint32) []byte {
-	return []byte(fmt.Sprintf("%d_%x", epoch, miniblockHash))
+// - miniblock M re-added, on the canonical chain this time, in the next epoch E + 1 (the "epochByHashIndex" must be updated),
+// - miniblock M added in a block that is dropped afterwards, then re-added in a competing block of the same epoch
+// (the metadata must point to the new block).
+func (hr *historyRepository) buildValueOfDeduplicationCacheForInsertMiniblockMetadata(blockHeaderHash []byte, epoch uint32) string {
+	return fmt.Sprintf("%d_%x", epoch, blockHeaderHash)
 }
 
-func (hr *historyRepository) markMiniblockMetadataAsRecentlyInserted(miniblockHash []byte, epoch uint32) {
-	key := hr.buildKeyOfDeduplicationCacheForInsertMiniblockMetadata(miniblockHash, epoch)
-	_ = hr.deduplicationCacheForInsertMiniblockMetadata.Put(key, nil, 0)
+func (hr *historyRepository) markMiniblockMetadataAsRecentlyInserted(miniblockHash []byte, blockHeaderHash []byte, epoch uint32) {
+	value := hr.buildValueOfDeduplicationCacheForInsertMiniblockMetadata(blockHeaderHash, epoch)
+	_ = hr.deduplicationCacheForInsertMiniblockMetadata.Put(miniblockHash, value, len(value))
 }
 
 // GetMiniblockMetadataByTxHash will return a history transaction for the given hash from storage
